@@ -32,7 +32,18 @@ func breakLayout(r *Rng, l Layout) ([]rawArch, string) {
 	}
 	k := len(as)
 	i := r.Intn(k)
-	switch r.Intn(14) {
+	switch r.Intn(15) {
+	case 14:
+		// every pairwise rule holds, every archive alone is below 4 GiB and every retention below
+		// 2^31 s, but together the archives pass 2^32 bytes (once or more): the 32-bit offsets
+		// wrap, and the last archive may well end below 2^32 again
+		n0 := int64(100000000 + r.Intn(250000000))
+		n1 := n0/2 + 1 + int64(r.Intn(300000000))
+		big := []rawArch{{1, n0}, {2, n1}}
+		if r.Bool() {
+			big = append(big, rawArch{4, n1/2 + 1 + int64(r.Intn(200000000))})
+		}
+		return big, "total-size-wraps"
 	case 0, 1, 2:
 		return as, "valid"
 	case 3:
